@@ -361,6 +361,19 @@ func RunTaggable(policyFile string, seed int64) (*Report, error) {
 	if pan != nil || perr != nil || out != nil {
 		rep.mm(Mismatch{Props: []string{"C09"}, What: "key-rotation payload must be consumed", Vector: "rotation payload", Expected: "(nil, nil)", Observed: fmt.Sprintf("panic=%v err=%v forwarded=%v", pan, perr, out != nil)})
 	}
+	// with every operation overridden to none the filter is a pass-through for whatever it is given, a rotation
+	// payload included: the very same event comes back and the filter keeps its key material
+	rep.Vectors++
+	rep.Runs++
+	none := map[encrypt.DataClassification]encrypt.FilterOperation{
+		encrypt.PublicClassification: encrypt.NoOperation, encrypt.SensitiveClassification: encrypt.NoOperation, encrypt.SecretClassification: encrypt.NoOperation}
+	fn := &encrypt.Filter{Wrapper: w, HmacSalt: []byte("salt-0"), HmacInfo: []byte("info-0"), FilterOperationOverrides: none}
+	re := &eventlogger.Event{Type: "t", Payload: &rot{w: NewWrapper("other"), salt: []byte("salt-1"), info: []byte("info-1")}, Formatted: map[string][]byte{}}
+	out2, perr2, pan2 := process(fn, re)
+	if pan2 != nil || perr2 != nil || out2 != re || fn.Wrapper != w || string(fn.HmacSalt) != "salt-0" || string(fn.HmacInfo) != "info-0" {
+		rep.mm(Mismatch{Props: []string{"C10"}, What: "all operations overridden to none: a payload that carries rotation material must be forwarded unchanged like any other, and the filter left as it was",
+			Vector: "rotation payload, all-none overrides", Expected: "same event, nil error, filter untouched", Observed: fmt.Sprintf("panic=%v err=%v same=%v wrapper kept=%v salt=%q", pan2, perr2, out2 == re, fn.Wrapper == w, fn.HmacSalt)})
+	}
 	curTags = nil
 	reportAliasing(rep)
 	return rep, nil
